@@ -510,4 +510,15 @@ def run(ctx, ck):
         ck.ob('R-EXH.elementwise', ffn.qual, shapes_ == {True}, ffn.loc(),
               'returns tuple(one text for each element of %s) on every path' % par if shapes_ == {True} else
               'does not return exactly one text per element on every path')
+    # a value printed for one pulse is computed for that pulse
+    ck.rule('R-CACHE.local-memo', 'a local memo dictionary of a report writer is keyed by everything its value is computed from')
+    from ..rules import local_memo_hazards
+    n_lm = 0
+    for g_ in writers:
+        for st_, k_, loose_ in local_memo_hazards(g_):
+            n_lm += 1
+            ck.ob('R-CACHE.local-memo', '%s|%s' % (g_.qual, norm(st_.targets[0])), False, g_.loc(st_),
+                  'the value stored under `%s` is computed from `%s` itself (%s), not only from the key: the entry of the first '
+                  'element is printed for every later element with the same key' % (k_, loose_[0], norm(st_.value)[:60]))
+    ck.ob('R-CACHE.local-memo', 'report writers', True, 'mininec', 'local memo dictionaries keyed too coarsely in the report writers: %d' % n_lm)
     ck.undecided += ['format_float digit accuracy over all magnitudes (run-time precision/truncation)']
